@@ -20,3 +20,6 @@ import "net"
 
 // SetSimListen installs a simulated listener for every server started later.
 func SetSimListen(f func(addr string) net.Listener) { simListen = f }
+
+// SetSimYield installs the simulator's yield hook (see simYield).
+func SetSimYield(f func(point string)) { simYield = f }
